@@ -284,4 +284,120 @@ theorem fieldPrefix_faithful (k : SKey) : fieldPrefix <+: encode k ↔ patField 
   rw [encode_comps]
   cases k <;> simp [comps, joinNul, fieldPrefix, patField, List.cons_prefix_cons]
 
+/-! ### the converse: with a separator byte inside a component every one of these fails -/
+
+/-- Injectivity fails: vertex "b\x00c" of graph "a" and vertex "c" of graph "a\x00b" share one key. -/
+theorem nul_breaks_inj :
+    encode (.vertex "a" "b\x00c") = encode (.vertex "a\x00b" "c") ∧ SKey.vertex "a" "b\x00c" ≠ .vertex "a\x00b" "c" := by
+  rw [encode_comps, encode_comps]; decide
+
+/-- Parsing fails: the key of vertex "a\x00b" parses as vertex "a" (another element appears). -/
+theorem nul_breaks_parse :
+    vertexKeyParse (encode (.vertex "g" "a\x00b")) = some ("g", "a") ∧ parse (encode (.vertex "g" "a\x00b")) = some (.vertex "g" "a") := by
+  have h : encode (.vertex "g" "a\x00b") = joinNul [[118], utf8 "g", utf8 "a", utf8 "b"] := by rw [encode_comps]; decide
+  have hs := splitNul_joinNul [[118], utf8 "g", utf8 "a", utf8 "b"] (by simp) (by decide)
+  rw [h]
+  constructor
+  · simp [vertexKeyParse, hs, strOf_utf8]
+  · have h0 : joinNul [[118], utf8 "g", utf8 "a", utf8 "b"] = 118 :: 0 :: joinNul [utf8 "g", utf8 "a", utf8 "b"] := by decide
+    rw [h0] at hs ⊢
+    simp [parse, vertexKeyParse, hs, strOf_utf8]
+
+/-- An edge label ending in the separator leaves EdgeKeyParse without its type byte: the Go code
+    indexes an empty slice (index out of range inside the listing goroutine). -/
+theorem nul_breaks_edge_parse : edgeKeyParse (encode (.edge "g" "e" "a" "b" "L\x00")) = none := by
+  have h : encode (.edge "g" "e" "a" "b" "L\x00") = joinNul [[101], utf8 "g", utf8 "e", utf8 "a", utf8 "b", utf8 "L", [], [1]] := by
+    rw [encode_comps]; decide
+  have hs := splitNul_joinNul [[101], utf8 "g", utf8 "e", utf8 "a", utf8 "b", utf8 "L", [], [1]] (by simp) (by decide)
+  simp [edgeKeyParse, sixParse, h, hs]
+
+/-- Prefix faithfulness fails: graph "a" sees the vertices of graph "a\x00b". -/
+theorem nul_breaks_prefix :
+    vertexListPrefix "a" <+: encode (.vertex "a\x00b" "c") ∧ patVertexList "a" (.vertex "a\x00b" "c") = false := by
+  rw [encode_comps]; decide
+
+/-- … and a delete addressed at "b\x00c" scans the edges from b to c (DelVertex before the fix). -/
+theorem nul_breaks_delete_prefix :
+    srcEdgePrefix "a" "b\x00c" <+: encode (.src "a" "b" "c" "e1" "L") ∧ patSrc "a" "b\x00c" (.src "a" "b" "c" "e1" "L") = false := by
+  rw [encode_comps]; decide
+
+/-- Without the trailing separator the prefixes would not be faithful even on clean names:
+    "v|a" is a byte prefix of the key of a vertex of graph "ab". -/
+theorem trailing_separator_needed :
+    joinNul [[118], utf8 "a"] <+: encode (.vertex "ab" "x") ∧ patVertexList "a" (.vertex "ab" "x") = false := by
+  rw [encode_comps]; decide
+
+/-! ### what the write path accepts -/
+
+/-- gripql validation as it was (C03's `validVertex`, `validName`): identifiers with the separator pass. -/
+theorem validate_gap :
+    ∃ v : VertexIn, validVertex v = true ∧ ¬ NulFree (.vertex "g" v.gid) := by
+  refine ⟨⟨"a\x00b", "L", .obj []⟩, by decide, ?_⟩
+  intro h
+  exact absurd (h (utf8 "a\x00b") (by simp [comps])) (by decide)
+
+private theorem noNul_iff (s : String) : noNul s = true ↔ (0 : UInt8) ∉ utf8 s := by
+  simp [noNul, hasNul]
+
+private theorem labelField_nulFree {g kind : String} (hg : (0 : UInt8) ∉ utf8 g) (hk : (0 : UInt8) ∉ utf8 kind) :
+    (0 : UInt8) ∉ utf8 (labelField g kind) := by
+  have h1 : (0 : UInt8) ∉ utf8 "." := by decide
+  have h2 : (0 : UInt8) ∉ utf8 ".label" := by decide
+  simp [labelField, utf8_append, hg, hk, h1, h2]
+
+/-- Every key written for a vertex the repaired write path accepts is separator-free. -/
+theorem accepted_vertex_nulFree {g : String} {v : VertexIn} (hg : validName16 g = true) (hv : validVertex16 v = true) :
+    NulFree (.vertex g v.gid) ∧ NulFree (.entry (labelField g "v") v.label v.gid) ∧
+    NulFree (.term (labelField g "v") v.label) ∧ NulFree (.doc v.gid) := by
+  simp only [validName16, validVertex16, Bool.and_eq_true, noNul_iff] at hg hv
+  obtain ⟨⟨⟨⟨_, hid⟩, _⟩, hl⟩, _⟩ := hv
+  have hf := labelField_nulFree hg.1 (by decide : (0 : UInt8) ∉ utf8 "v")
+  refine ⟨?_, ?_, ?_, ?_⟩ <;> intro c hc <;> simp [comps] at hc <;>
+    rcases hc with rfl | rfl | rfl | rfl | rfl <;> first | assumption | exact hg.1 | decide
+
+/-- Every key written for an edge the repaired write path accepts is separator-free. -/
+theorem accepted_edge_nulFree {g : String} {e : EdgeIn} (hg : validName16 g = true) (he : validEdge16 e = true) :
+    NulFree (.edge g e.gid e.frm e.to e.label) ∧ NulFree (.src g e.frm e.to e.gid e.label) ∧
+    NulFree (.dst g e.to e.frm e.gid e.label) ∧ NulFree (.entry (labelField g "e") e.label e.gid) ∧
+    NulFree (.term (labelField g "e") e.label) ∧ NulFree (.doc e.gid) := by
+  simp only [validName16, validEdge16, Bool.and_eq_true, noNul_iff] at hg he
+  obtain ⟨⟨⟨⟨⟨⟨⟨⟨_, hid⟩, _⟩, hl⟩, _⟩, hf⟩, _⟩, ht⟩, _⟩ := he
+  have hfl := labelField_nulFree hg.1 (by decide : (0 : UInt8) ∉ utf8 "e")
+  refine ⟨?_, ?_, ?_, ?_, ?_, ?_⟩ <;> intro c hc <;> simp [comps] at hc <;>
+    rcases hc with rfl | rfl | rfl | rfl | rfl | rfl | rfl <;> first | assumption | exact hg.1 | decide
+
+/-- The graph key and the two field keys AddGraph writes. -/
+theorem accepted_graph_nulFree {g : String} (hg : validName16 g = true) :
+    NulFree (.graph g) ∧ NulFree (.field (labelField g "v")) ∧ NulFree (.field (labelField g "e")) := by
+  simp only [validName16, Bool.and_eq_true, noNul_iff] at hg
+  have h1 := labelField_nulFree hg.1 (by decide : (0 : UInt8) ∉ utf8 "v")
+  have h2 := labelField_nulFree hg.1 (by decide : (0 : UInt8) ∉ utf8 "e")
+  refine ⟨?_, ?_, ?_⟩ <;> intro c hc <;> simp [comps] at hc <;>
+    rcases hc with rfl | rfl <;> first | assumption | exact hg.1 | decide
+
+/-- The repaired validation only ever strengthens the old one (so C03's model, run on sanitised
+    batches, is the repaired code). -/
+theorem valid16_imp_valid (x : ElemIn) (h : validElem16 x = true) :
+    (match x with | .v v => validVertex v | .e e => validEdge e) = true := by
+  have hf : ∀ ks : List String, ks.all validFieldName16 = true → ks.all validFieldName = true := by
+    intro ks hks
+    simp only [List.all_eq_true] at hks ⊢
+    intro k hk
+    have := hks k hk
+    simp only [validFieldName16, validName16, validFieldName, Bool.and_eq_true] at this ⊢
+    exact ⟨this.1, this.2.2⟩
+  cases x with
+  | v v =>
+    simp only [validElem16, validVertex16, Bool.and_eq_true] at h
+    simp only [validVertex, Bool.and_eq_true]
+    exact ⟨⟨h.1.1.1.1, h.1.1.2⟩, hf _ h.2⟩
+  | e e =>
+    simp only [validElem16, validEdge16, Bool.and_eq_true] at h
+    simp only [validEdge, Bool.and_eq_true]
+    exact ⟨⟨⟨⟨h.1.1.1.1.1.1.1.1, h.1.1.1.1.1.1.2⟩, h.1.1.1.1.2⟩, h.1.1.2⟩, hf _ h.2⟩
+
+example : validVertex16 ⟨"a b|c/日本", "label", .obj []⟩ = true := by decide
+example : validVertex16 ⟨"a\x00b", "L", .obj []⟩ = false := by decide
+example : validName16 "a\x00b" = false := by decide
+
 end Grip.Props.C16
